@@ -66,7 +66,8 @@ Section Oracles.
                  | CFalse => Denied
                  | _ => AErr
                  end
-    | ENonIter => AErr
+    | ENonIter => match split46 pton4 pton6 client with None => Denied | Some _ => AErr end
+                  (* a malformed client address is rejected before the collection is iterated *)
     | ETypeErr => AErr
     end.
 
